@@ -17,9 +17,30 @@ Every pass is conservative: when a precondition is not met the code is left as i
 only what the rules see; reports cite the original line numbers of the statements involved.
 """
 import ast
-import copy
+import copy as _copy_mod
 import json
 import os
+
+_SHARED = (ast.expr_context, ast.boolop, ast.operator, ast.unaryop, ast.cmpop)
+
+
+def _clone(node):
+    """deep copy of a syntax tree fragment (the per-interpreter singletons Load/Store/Add/... stay shared)"""
+    if isinstance(node, list):
+        return [_clone(x) for x in node]
+    if not isinstance(node, ast.AST) or isinstance(node, _SHARED):
+        return node
+    new = type(node)()
+    for k, v in node.__dict__.items():
+        if k in ("_parent", "_fi"):
+            continue
+        setattr(new, k, _clone(v))
+    return new
+
+
+class copy:          # local stand-in so that every copy made here goes through _clone
+    deepcopy = staticmethod(_clone)
+
 
 FUNC = (ast.FunctionDef, ast.AsyncFunctionDef)
 PURE_CALLS = {"isinstance", "issubclass", "callable", "len", "type", "bool", "hasattr", "id", "safe_eq", "is_list", "is_dict", "is_atom", "is_empty"}
